@@ -9,6 +9,7 @@ floats) is recognised here, not in Lean, and counted separately."""
 from __future__ import annotations
 
 from harness.vlib.core import Ctx, ToolFailure
+from harness.c05.front import report, violation_nf
 
 EK = {0: "n", 1: "m", 2: "f", 3: "a"}
 
@@ -125,11 +126,11 @@ def check(ctx: Ctx, col: Collector) -> None:
     for i, o, origin, fn in bad[:3]:
         from translate.ir_export import pretty
         blk = int(o.split()[1]) if o.startswith("bad ") and o.split()[1].isdigit() else -1
-        ctx.report({"class": "error-edge-missing", "origin": origin},
+        report(ctx, "edges", {"class": "error-edge-missing", "origin": origin},
                    f"final IR of {fn} ({origin}): block {blk} has a fallible op that is not followed by the branch on its "
                    "error value (checkBlock rejects it)",
                    {"kind": "edges", "function": fn, "block": blk, "ir": pretty(col.dumps[i])[:6000]})
     for origin, fn, bi in col.overlap_bad[:3]:
-        ctx.report({"class": "error-edge-missing", "origin": origin, "error_kind": "ERR_MAGIC_OVERLAPPING"},
+        report(ctx, "edges", {"class": "error-edge-missing", "origin": origin, "error_kind": "ERR_MAGIC_OVERLAPPING"},
                    f"final IR of {fn} ({origin}): block {bi}: an ERR_MAGIC_OVERLAPPING op is not followed by the "
                    "comparison + err_occurred() check", {"kind": "edges", "function": fn, "block": bi})
